@@ -88,6 +88,10 @@ class RefCloud:
             raise httpx.ReadTimeout("simulated timeout", request=request)
         if answer == "500":
             return httpx.Response(500, text="server error", request=request)
+        if answer == "404":
+            return httpx.Response(404, text="<html>not found</html>", request=request)
+        if answer == "302":
+            return httpx.Response(302, headers={"location": "http://captive.portal/login"}, text="<html>moved</html>", request=request)
         if answer == "api":
             return httpx.Response(200, text=json.dumps({"errorCode": "3101", "msg": "value is illegal"}), request=request)
         if path == "/v1/user/login/id/get":
